@@ -31,31 +31,42 @@ ASSUMPTIONS = ['the installed CPython headers (sysconfig include dir) describe t
                'user comparison methods are consistent with one total order (the quantifier of the truth-table clause)']
 
 MUTATIONS = [
-    # (file, edit, expected rule) — each tried on a scratch copy; all reported with the edited construct in the message
+    # (file, edit, rule that reported it) — each tried on a scratch copy; all reported with the edited construct in the message
     ('Cython/Compiler/TypeSlots.py', 'swap the rows nb_and / nb_xor of PyNumberMethods', 'C28-ORD'),
     ('Cython/Compiler/TypeSlots.py', 'delete EmptySlot("sq_slice") from PySequenceMethods', 'C28-ORD'),
-    ('Cython/Compiler/TypeSlots.py', 'SuiteSlot(self.PySequenceMethods, ...,"tp_as_mapping") / SuiteSlot(self.PyMappingMethods, ..., "tp_as_sequence") (tables swapped)', 'C28-ORD'),
+    ('Cython/Compiler/TypeSlots.py', 'SuiteSlot(self.PyMappingMethods, .., "tp_as_sequence") / SuiteSlot(self.PySequenceMethods, .., "tp_as_mapping") (tables swapped)', 'C28-ORD'),
+    ('Cython/Compiler/TypeSlots.py', 'delete the first row ConstructorSlot("tp_dealloc", ...)', 'C28-ORD'),
+    ('Cython/Compiler/TypeSlots.py', 'move tp_iter after tp_iternext', 'C28-ORD'),
     ('Cython/Compiler/TypeSlots.py', 'BinopSlot(bf, "nb_subtract", "__sub__") -> "__mul__"', 'C28-DUN'),
     ('Cython/Compiler/TypeSlots.py', "right_method = '__r' + left_method[2:]  ->  '__r' + left_method[3:]", 'C28-DUN'),
-    ('Cython/Compiler/TypeSlots.py', 'richcmp_special_methods: drop "__ge__"', 'C28-DUN (+C28-TO)'),
+    ('Cython/Compiler/TypeSlots.py', 'richcmp_special_methods: drop "__ge__"', 'C28-DUN + C28-TO'),
+    ('Cython/Compiler/TypeSlots.py', '"__ixor__" -> "__ixr__"; fallback="__long__" -> "__nonzero__"', 'C28-DUN'),
     ('Cython/Compiler/TypeSlots.py', 'MethodSlot(unaryfunc, "nb_negative", ...) -> MethodSlot(binaryfunc, ...)', 'C28-SIG'),
     ('Cython/Compiler/TypeSlots.py', 'lenfunc = Signature("T", "z") -> Signature("T", "i")', 'C28-SIG'),
+    ('Cython/Compiler/TypeSlots.py', 'ptf = powternaryfunc if old_binops else ... -> binaryfunc if old_binops else ...', 'C28-SIG'),
     ('Cython/Compiler/ModuleNode.py', "TOTAL_ORDERING[('__lt__', '__gt__')]: (True, '&&', True) -> (True, '&&', False)", 'C28-TO'),
+    ('Cython/Compiler/ModuleNode.py', "TOTAL_ORDERING[('__le__', '__gt__')]: (True, '', None) -> (False, '', None);  [('__gt__', '__ge__')]: '||' -> '&&'", 'C28-TO'),
     ('Cython/Compiler/ModuleNode.py', "TOTAL_ORDERING: delete the row ('__ge__', '__lt__')", 'C28-TO'),
-    ('Cython/Compiler/ModuleNode.py', "generate_richcmp_function: ('!!' if invert_comp else '!') -> ('!' if invert_comp else '!!')", 'C28-TO'),
+    ('Cython/Compiler/ModuleNode.py', "generate_richcmp_function: ('!!' if invert_comp else '!') -> ('!' if invert_comp else '!!'); same for the '||' prefix", 'C28-TO'),
     ('Cython/Compiler/ModuleNode.py', 'generate_richcmp_function: remove `invert_equals = not invert_equals` in the __ne__ fallback', 'C28-TO'),
     ('Cython/Compiler/ModuleNode.py', 'generate_richcmp_function: NE-from-EQ block "ret = (b) ? Py_False : Py_True" -> "? Py_True : Py_False"', 'C28-TO'),
     ('Cython/Compiler/ModuleNode.py', 'generate_richcmp_function: "return %s(o1, o2);" -> "(o2, o1)"', 'C28-TO'),
+    ('Cython/Compiler/ModuleNode.py', 'generate_richcmp_function: one-stage branch `if invert_comp` -> `if not invert_comp`; `ret = __Pyx_NewRef(Py_False)` -> Py_True', 'C28-TO'),
+    ('Cython/Compiler/ModuleNode.py', "generate_richcmp_function: cmp_type = ...upper() -> ...upper()[::-1] (case Py_TL) / L<->G swapped labels", 'C28-TO'),
+    ('Cython/Compiler/ModuleNode.py', "generate_richcmp_function: `cmp_type in ('NE', 'EQ')` -> ('NE', 'EQ', 'LE') (derived __le__ never generated)", 'C28-TO'),
     ('Cython/Compiler/ModuleNode.py', 'generate_binop_function: "right, left" if reverse else "left, right" -> branches swapped', 'C28-TPL'),
     ('Cython/Compiler/ModuleNode.py', 'generate_binop_function: context key "overloads_right" renamed to "overload_right"', 'C28-TPL'),
-    ('Cython/Compiler/ModuleNode.py', "generate_binop_function: slot_type = 'ternaryfunc' -> 'binaryfunc' in the pow branch", 'C28-TPL'),
-    ('Cython/Compiler/ModuleNode.py', 'generate_binop_function: "call_right": call_slot_method(slot.left_slot.method_name, reverse=True)', 'C28-TPL'),
-    ('Cython/Utility/ExtensionTypes.c', 'BinopSlot: {{extra_arg_decl}} removed from the slot function head', 'C28-TPL'),
+    ('Cython/Compiler/ModuleNode.py', "generate_binop_function: slot_type = 'ternaryfunc' -> 'binaryfunc' in the pow branch; extra_arg = ', extra_arg' -> ''", 'C28-TPL'),
+    ('Cython/Compiler/ModuleNode.py', 'generate_binop_function: "call_right": call_slot_method(slot.left_slot.method_name, reverse=True); overloads_left computed from right_slot', 'C28-TPL'),
+    ('Cython/Compiler/ModuleNode.py', 'generate_binop_function: base-type helper called with (..., right, left)', 'C28-TPL'),
+    ('Cython/Utility/ExtensionTypes.c', 'BinopSlot: {{extra_arg_decl}} removed from the slot function head; {{overloads_left}} misspelt; head parameters (right, left)', 'C28-TPL'),
     # behaviour-preserving edits that stay silent
-    ('Cython/Compiler/ModuleNode.py', 'rename local comp_entry -> found, invert_comp -> inv in generate_richcmp_function', 'silent'),
-    ('Cython/Compiler/ModuleNode.py', 'reorder rows of TOTAL_ORDERING; re-express `if invert_equals is not None` as `if invert_equals in (True, False)`', 'silent'),
-    ('Cython/Compiler/TypeSlots.py', 'rename EmptySlot("sq_slice") -> EmptySlot("was_sq_slice"); build right_method with an f-string', 'silent'),
-    ('Cython/Compiler/ModuleNode.py', 'generate_binop_function: build the context dict in a local variable first, rename call_slot_method', 'silent'),
+    ('Cython/Compiler/ModuleNode.py', 'rename locals comp_entry/invert_comp/ordering_source/cmp_type in generate_richcmp_function', 'silent'),
+    ('Cython/Compiler/ModuleNode.py', 'reorder rows of TOTAL_ORDERING; `if invert_equals is not None` -> `in (True, False)`; "order_res ? Py_False : Py_True" -> "(!order_res) ? Py_True : Py_False"', 'silent'),
+    ('Cython/Compiler/ModuleNode.py', 'case label emitted with an f-string; "PyObject *ret;" + "ret = f(..)" merged into one declaration with initialiser', 'silent'),
+    ('Cython/Compiler/TypeSlots.py', 'EmptySlot("sq_slice") -> EmptySlot("was_sq_slice"); right_method built with an f-string; Signature definitions reordered; a row written with keyword arguments', 'silent'),
+    ('Cython/Compiler/ModuleNode.py', 'generate_binop_function: context dict built in a local variable first, call_slot_method renamed', 'silent'),
+    ('Cython/Utility/ExtensionTypes.c', 'BinopSlot: local C variable renamed', 'silent'),
 ]
 
 
@@ -190,7 +201,7 @@ def order_problems(rows, members, partial_tail=False):
 def rule_ORD(ctx, ext):
     m, st, init, sigs, tabs = ext
     rel = m.rel
-    r = Rule('C28-ORD', 'slot tables of TypeSlots.SlotTable follow the member order of the CPython structs they initialise; SuiteSlots pair table and struct', floor=95)
+    r = Rule('C28-ORD', 'slot tables of TypeSlots.SlotTable follow the member order of the CPython structs they initialise; SuiteSlots pair table and struct', floor=105)
     structs = H.cpython_structs()
     if 'slot_table' not in tabs:
         raise AnalysisError('SlotTable.slot_table not found')
@@ -401,7 +412,7 @@ def sig_problem(sig, td):
 def rule_SIG(ctx, ext):
     m, st, init, sigs, tabs = ext
     rel = m.rel
-    r = Rule('C28-SIG', 'the Signature of a slot row has the C argument/return types of the function-pointer typedef of the struct member it fills', floor=55)
+    r = Rule('C28-SIG', 'the Signature of a slot row has the C argument/return types of the function-pointer typedef of the struct member it fills', floor=56)
     structs = H.cpython_structs()
     tds = H.cpython_fn_typedefs()
     mtype = {}
@@ -622,7 +633,7 @@ def rule_TO(ctx):
     ix = ctx.index
     mn = ix.mod('Compiler.ModuleNode')
     rel = mn.rel
-    r = Rule('C28-TO', 'the tp_richcompare switch emitted by generate_richcmp_function computes every comparison correctly on a total order, for every subset of defined methods, with and without total_ordering', floor=600)
+    r = Rule('C28-TO', 'the tp_richcompare switch emitted by generate_richcmp_function computes every comparison correctly on a total order, for every subset of defined methods, with and without total_ordering', floor=670)
     cls = ix.cls('Compiler.ModuleNode', 'ModuleNode')
     fn = cls.methods.get('generate_richcmp_function')
     if fn is None:
@@ -786,7 +797,7 @@ def rule_TPL(ctx, ext):
     m, st, init, sigs, tabs = ext
     mn = ix.mod('Compiler.ModuleNode')
     rel = mn.rel
-    r = Rule('C28-TPL', 'generate_binop_function instantiates the BinopSlot template with every variable it reads, the slot\'s C function type/arity, and left/reflected calls with the operands in the right order', floor=35)
+    r = Rule('C28-TPL', 'generate_binop_function instantiates the BinopSlot template with every variable it reads, the slot\'s C function type/arity, and left/reflected calls with the operands in the right order', floor=36)
     cls = ix.cls('Compiler.ModuleNode', 'ModuleNode')
     fn = cls.methods.get('generate_binop_function')
     if fn is None:
